@@ -42,6 +42,20 @@ fn run_engine(engine: &str, ctx: &mut Ctx) {
             std::mem::forget(v);
             ctx.end_case(8);
         }
+        "selftest-abort" => {
+            // a panic inside a destructor while already unwinding: the
+            // run-time aborts the process (what a crate does when one of its
+            // Drop impls trips an assertion during a panic)
+            struct Bomb;
+            impl Drop for Bomb {
+                fn drop(&mut self) {
+                    panic!("selftest: second panic inside a destructor");
+                }
+            }
+            ctx.begin_case(7, || wpmon::json::Json::obj().with("kind", wpmon::json::Json::s("selftest-abort")).with("index", wpmon::json::Json::U(7)));
+            let _bomb = Bomb;
+            panic!("selftest: first panic");
+        }
         "codec" => wpmon::engines::codec::run(ctx),
         "record-stream" => wpmon::engines::codec::run_record_streams(ctx),
         "codec-stream" => wpmon::engines::codec::run_stream(ctx),
